@@ -407,7 +407,7 @@ WASM_CALLS = ['withConversionOfDigits', 'withConversionOfNonDigits', 'withConver
 def run_c17(pid, spec, res, st, tier, seed, helpers):
     n = 600 if tier == 'quick' else 20000
     rnd = random.Random(seed + 17)
-    cs = casegen.generate(seed * 31 + 17, n, allow_flags=[])
+    cs = casegen.generate(seed * 31 + 17, n, allow_flags=[], alphabets=[a for a in casegen.ALPHABETS if a[0] in ('ab', 'abc', 'astral', 'mixed', 'meta', 'ab.-', 'cased', 'digits')])
     lines = []
     for i, c in enumerate(cs):
         c['id'] = i
@@ -421,8 +421,6 @@ def run_c17(pid, spec, res, st, tier, seed, helpers):
             name = rnd.choice(WASM_CALLS)
             target = rnd.randint(0, 6)
             val = rnd.choice([0, 1, 1, 2, 3]) if name.startswith('withMinimum') else rnd.randint(0, 1)
-            if name == 'withEscapingOfNonAsciiChars':
-                val = 0   # surrogates + self-check is C07's topic; keep outputs comparable
             calls.append([name, (target << 8) | val])
         c['items'] = items; c['calls'] = calls
         lines.append(json.dumps({'id': i, 'items': items, 'calls': calls}))
